@@ -93,6 +93,9 @@ class Run(object):
         self.notes = []
         self.dead = False
         self.observing = False   # harness is looking: clock reads are not seam crossings
+        self.sched_sigs = []     # recorded schedules of threaded maps
+        self.stats_switches = 0
+        self.stats_lines = 0
         self.pre_step = None     # harness hook: called by the _Step wrapper before each _Step
 
     def __reduce__(self):
